@@ -49,6 +49,8 @@ EXTRA_VALUES = ["[1]", "[1, 2]", "(1, 2)", "{1, 2}", "{'a': 1, 'b': 2}", "[1.5]"
                 # collections of mappings / pairs as input of a mapping target
                 "[{'a': 1, 'b': 2}]", "[{'a': 1, 'b': 2}, {'c': 3, 'd': 4}]", "[('a', 1)]", "[['a', 1], ['b', 2]]", "({'a': 1},)",
                 "[{'a': 1}, ('b', 2)]",
+                # byte-likes with undecodable content
+                "memoryview(b'1\\xff2')", "memoryview(b'12')", "bytearray(b'1\\xff2')", "[memoryview(b'1\\xff2')]", "memoryview(b'2.5')",
                 # mappings that are not dicts
                 "[__import__('types').MappingProxyType({'a': 1, 'b': 2})]", "[__import__('collections').ChainMap({'a': 1, 'b': 2})]",
                 "__import__('types').MappingProxyType({'a': 1, 'b': 2})", "(__import__('collections').OrderedDict(a=1, b=2),)"]
@@ -71,8 +73,8 @@ def values():
                 continue
             seen.add(v)
             try:
-                if " at 0x" in repr(ev(v)) or v == "BadStr()":
-                    continue
+                if (" at 0x" in repr(ev(v)) and "memoryview(" not in v) or v == "BadStr()":
+                    continue      # (a memoryview prints its address but is compared by content)
             except Exception:
                 continue
             out.append(v)
@@ -372,7 +374,9 @@ def _dataclass(acc):
         for vx in ("{'a': 1}", "{'a': 1, 'zz': 2}", "{'a': '1', 'zz': 2, 'yy': 3}", "[{'a': 1}]", "[{'a': 1}, {'a': 2}]", "'a=1&zz=2'",
                    "'{\"a\": 1}'", "{'a': 1.5}", "{'a': '1.5'}", "[('a', 1)]", "(('a', 1),)", "[{'a': 1, 'b': 'x'}]", "[{'a': 1, 'b': 'x'}, {'a': 2, 'b': 'y'}]",
                    # elements that already are instances of the class
-                   "[S(a=1)]", "[S(a=1), S(a=2)]", "(S(a=1), {'a': 2})", "[S(a=1), 5, 6]", "[{'a': 1}, S(a=2)]"):
+                   "[S(a=1)]", "[S(a=1), S(a=2)]", "(S(a=1), {'a': 2})", "[S(a=1), 5, 6]", "[{'a': 1}, S(a=2)]",
+                   # other primitive groups
+                   "b'{\"a\": 1}'", "'a=1'", "'a=1;b=x'", "{('a', 1)}", "S(a=1)", "5", "None"):
             acc.states += 1
             tt_res = [convert(s_cls, vx, oi) for oi in range(4)]
             res = [_from(s_cls, vx, oi) for oi in range(4)]
@@ -406,6 +410,18 @@ def _dataclass(acc):
                         canon(dict(res[0][1]) if isinstance(res[0][1], dict) else res[0][1].__dict__.get("a")):
                     # unknown keys are dropped without flags and rejected with no_data_loss: only compared when accepted
                     v(f"same-value-{flags}", f"{short(r[1], 50)} under {flags} vs {short(res[0][1], 50)}")
+            for oi in (1, 3):
+                # no_explicit_cast given by the caller: only a mapping (or an instance) is in the primitive group "object"
+                r = tt_res[oi]
+                flags = "+".join(sorted(FLAGS[oi]))
+                import collections.abc as _abc
+                if r[0] == "ok" and not isinstance(x, (_abc.Mapping, s_cls)):
+                    acc.violation(f"C12|{base}|type_transform-explicit-cast-into-object-{flags}|{_vshape(x)}",
+                                  f"type_transform({vx}, S) under {flags}: a {type(x).__name__} was converted into the data class "
+                                  f"({short(r[1], 50)})",
+                                  "import sys\nsys.path.insert(0, '/verif')\nfrom utmc.ns import *\n" + src +
+                                  f"try:\n    print(type_transform({vx}, S, options=Options(**{FLAGS[oi]!r}))); sys.exit(1)\n"
+                                  f"except Exception as e:\n    print('rejected:', type(e).__name__, e); sys.exit(0)\n")
             for oi in (2, 3):
                 r = tt_res[oi]
                 flags = "+".join(sorted(FLAGS[oi]))
